@@ -111,7 +111,38 @@ def randomwalk(draw, L):
 
 
 @st.composite
+def comb(draw):
+    """three to five long north-south chains joined by east-west bridges that lie further and further north: the provisional labels of
+    one component are merged in several nested steps (chains crossing tens of chunks), with isolated points between the teeth"""
+    L = draw(st.sampled_from([1.0, 0.5, 0.2]))
+    step = L * draw(st.sampled_from([0.8, 0.9, 0.7]))
+    teeth = draw(st.integers(3, 5))
+    ra0 = draw(st.sampled_from([100.0, 352.0, 200.0]))
+    dec0 = draw(st.sampled_from([0.0, -20.0, 10.0]))
+    gap = draw(st.sampled_from([20, 14, 25]))                  # steps between neighbouring teeth
+    heights = sorted((draw(st.integers(10, 34)) for _ in range(teeth)), reverse=True)      # tooth 0 is the longest
+    east = draw(st.booleans())
+    pts = []
+    for k in range(teeth):
+        r = ra0 + (k if east else -k) * gap * step
+        for i in range(heights[k] + 1):
+            pts.append((G._wrap(r), dec0 + i * step))
+    for k in range(1, teeth):
+        # bridge from the top of tooth k to tooth k-1 (which reaches at least as far north)
+        for j in range(1, gap):
+            r = ra0 + ((k - 1) * gap + j) * step * (1 if east else -1)
+            pts.append((G._wrap(r), dec0 + heights[k] * step))
+    for k in range(1, teeth):
+        if draw(st.booleans()):
+            pts.append((G._wrap(ra0 + ((k - 0.5) * gap) * step * (1 if east else -1)), dec0 + draw(st.integers(0, 5)) * step))     # alone between two teeth
+    order = draw(st.permutations(list(range(len(pts))))) if draw(st.booleans()) else list(range(len(pts)))
+    return dict(family='comb', ra=[pts[i][0] for i in order], dec=[pts[i][1] for i in order], L=L, chunksize=draw(st.sampled_from([None, None, 5.0 * L, 8.0 * L])))
+
+
+@st.composite
 def case_strategy(draw):
+    if draw(st.integers(0, 11)) == 0:
+        return draw(comb())
     L = 10 ** (draw(st.one_of(st.integers(-35, 12), st.integers(-70, -35), st.integers(-35, 19))) / 10.0) * (1 + 0.1 * draw(G.unitf))     # 1e-7 .. 87 deg
     which = draw(st.integers(0, 7))
     if which == 0:
@@ -282,10 +313,76 @@ def nontrivial(case, labels):
     return bool({'big-group-in->=2-chunks', 'group-straddles-seam', 'group-near-pole'} & set(labels))
 
 
+# ------------------------------------------------------------------ catalogues with more points than a 16-bit counter holds
+@st.composite
+def many_case(draw):
+    return dict(nrows=draw(st.sampled_from([100, 96, 110])), ncols=draw(st.sampled_from([350, 360, 345])), L=draw(st.sampled_from([0.25, 0.2])),
+                comp=sorted(draw(st.lists(st.integers(0, 30000), min_size=5, max_size=40, unique=True))), second=draw(st.booleans()),
+                shift=abs(draw(G.unitf)), perm_seed=draw(st.integers(0, 10 ** 6)))
+
+
+def many_body(case):
+    """a lattice of isolated points one degree apart (33 000 - 40 000 of them) and a few companions 0.6 L from chosen lattice points: the
+    expected partition is known by construction (no separation matrix of that size is needed)"""
+    from pydl.pydlutils.spheregroup import spheregroup
+    nr, nc, L = case['nrows'], case['ncols'], case['L']
+    dd = -0.5 * nr + np.arange(nr) + 0.37
+    rr = (np.arange(nc) * (360.0 / nc) + case['shift']) % 360.0
+    decs = np.repeat(dd, nc)
+    ras = np.tile(rr, nr) / 1.0
+    # RA pitch of 360/nc degrees is >= 1 degree on the sky only near the equator: keep |dec| < 50 where cos(dec) * pitch > 0.64 > 2.5 L
+    n0 = len(ras)
+    lab = np.arange(n0)
+    extra_ra, extra_dec, extra_lab = [], [], []
+    for c in case['comp']:
+        i = c % n0
+        extra_ra.append(ras[i])
+        extra_dec.append(decs[i] + 0.6 * L)
+        extra_lab.append(i)
+        if case['second']:
+            extra_ra.append(ras[i])
+            extra_dec.append(decs[i] - 0.6 * L)
+            extra_lab.append(i)
+    ra = np.concatenate([ras, extra_ra])
+    dec = np.concatenate([decs, extra_dec])
+    lab = np.concatenate([lab, extra_lab]).astype('i8')
+    order = np.random.RandomState(case['perm_seed']).permutation(len(ra))
+    ra, dec, lab = ra[order], dec[order], lab[order]
+    n = len(ra)
+    ing, mult, first, nxt = call(spheregroup, ra, dec, L)
+    with judge('many-points'):
+        ing = np.asarray(ing).astype('i8')
+        check(ing.shape == (n,), 'many:wrong-length')
+        # same partition: the map expected label -> returned label is a bijection
+        pairs = np.unique(np.stack([lab, ing], 1), axis=0)
+        check(len(np.unique(pairs[:, 0])) == len(pairs) and len(np.unique(pairs[:, 1])) == len(pairs), 'many:partition-differs-from-construction',
+              lambda: dict(n=n, groups_expected=int(len(np.unique(lab))), groups_returned=int(len(np.unique(ing)))))
+        ng = int(ing.max()) + 1
+        firsts = np.full(ng, n, dtype='i8')
+        np.minimum.at(firsts, ing, np.arange(n))
+        check(bool(np.all(np.diff(firsts) > 0)), 'many:groups-not-numbered-by-first-member')
+        counts = np.bincount(ing, minlength=ng)
+        check(bool(np.array_equal(np.asarray(mult)[:ng], counts)) and bool(np.all(np.asarray(mult)[ng:] == 0)), 'many:wrong-multiplicity')
+        check(bool(np.array_equal(np.asarray(first)[:ng], firsts)) and bool(np.all(np.asarray(first)[ng:] == -1)), 'many:wrong-first-member')
+        nx = np.asarray(nxt).astype('i8')
+        ok = True
+        for g in np.nonzero(counts > 1)[0][:200]:
+            walk, j = [], int(firsts[g])
+            while j != -1 and len(walk) <= counts[g]:
+                walk.append(j)
+                j = int(nx[j])
+            ok = ok and sorted(walk) == np.nonzero(ing == g)[0].tolist()
+        check(ok and bool(np.all(nx[counts[ing] == 1] == -1)), 'many:next-walk-wrong')
+    note_label('points>32767' if n > 32767 else 'points<=32767')
+
+
 SUBCHECKS = [
     SubCheck('fof_vs_unionfind', body, strategy=case_strategy, classify=classify, nontrivial=nontrivial,
              quick=7000, thorough=200000, shards=(16, 16),
              doc='partition == brute-force friends-of-friends components (tolerance band) + numbering, mult, first, next'),
+    SubCheck('many_points', many_body, strategy=many_case, classify=lambda c: ['second:%s' % c['second']], nontrivial=lambda c, l: 'points>32767' in l,
+             quick=3, thorough=48, shards=(3, 16), floor=0.0,
+             doc='33 000 - 40 000 points (more provisional labels than a 16-bit counter holds): partition known by construction'),
     SubCheck('lattice_subsets', body, kind='exhaustive', cases=lattice_cases, classify=classify, nontrivial=nontrivial,
              shards=(16, 16), floor=0.0,
              doc='bounded-exhaustive: all subsets of a 3x3 lattice (pitch 0.9/1.1 L) at seam, chunk-corner and polar anchors'),
